@@ -72,7 +72,10 @@ if not PYTHON2:
 def accumulate(iterable):
   " Return series of accumulated sums. "
   iterator = iter(iterable)
-  sum_data = next(iterator)
+  try:
+    sum_data = next(iterator)
+  except StopIteration: # Empty input, empty output (PEP 479)
+    return
   yield sum_data
   for el in iterator:
     sum_data += el
